@@ -59,6 +59,51 @@ func genMux() (string, error) {
 		}
 		fmt.Fprintf(&b, "def src_%s : String := %q\n", fn.name, g.StmtsText(fd.Body.List))
 	}
+	// does a partly enqueued message end the connection? Recognised shape:
+	//   queueSends has two bool results and returns `false, i > 0` from inside its range loop;
+	//   Send, inside `if !ok { … }`, has `if partial { c.Error(…) }`.
+	qs := cf.FindFunc("Stream", "queueSends")
+	sd := cf.FindFunc("MultiConn", "Send")
+	tears, tearSrc := false, ""
+	reportsPartial := false
+	if qs.Type.Results != nil && qs.Type.Results.NumFields() == 2 {
+		ast.Inspect(qs.Body, func(n ast.Node) bool {
+			if rs, ok := n.(*ast.RangeStmt); ok && g.ExprText(rs.Key) == "i" {
+				ast.Inspect(rs.Body, func(m ast.Node) bool {
+					if r, ok := m.(*ast.ReturnStmt); ok && len(r.Results) == 2 && g.ExprText(r.Results[0]) == "false" && g.ExprText(r.Results[1]) == "i > 0" {
+						reportsPartial = true
+					}
+					return true
+				})
+			}
+			return true
+		})
+	}
+	if reportsPartial {
+		usesSecond := false
+		ast.Inspect(sd.Body, func(n ast.Node) bool {
+			if as, ok := n.(*ast.AssignStmt); ok && len(as.Lhs) == 2 && len(as.Rhs) == 1 && g.ExprText(as.Lhs[0]) == "ok" && g.ExprText(as.Lhs[1]) == "partial" && strings.HasPrefix(g.ExprText(as.Rhs[0]), "stream.queueSends(") {
+				usesSecond = true
+			}
+			return true
+		})
+		for _, st := range sd.Body.List {
+			outer, ok := st.(*ast.IfStmt)
+			if !ok || g.ExprText(outer.Cond) != "!ok" || !usesSecond {
+				continue
+			}
+			for _, in := range outer.Body.List {
+				inner, ok := in.(*ast.IfStmt)
+				if !ok || g.ExprText(inner.Cond) != "partial" || inner.Else != nil || len(inner.Body.List) == 0 {
+					continue
+				}
+				if es, ok := inner.Body.List[0].(*ast.ExprStmt); ok && strings.HasPrefix(g.ExprText(es.X), "c.Error(") {
+					tears, tearSrc = true, g.StmtText(inner)
+				}
+			}
+		}
+	}
+	fmt.Fprintf(&b, "/-- a message of which only a prefix could be enqueued ends the connection (`Send`: `if partial { c.Error(…) }`) -/\ndef partialEnqueueTearsDown : Bool := %v\ndef src_partialTeardown : String := %q\n", tears, tearSrc)
 	// the select of the send loop: which queues it serves
 	ss := cf.FindFunc("MultiConn", "startSendService")
 	if ss == nil {
